@@ -4,7 +4,8 @@ from plib import *
 from props.common import LineRunner, hash_list
 from props.pcommon import *
 
-LEAN_TARGETS = ["Plonk.Props.C17"]
+LEAN_TARGETS = ["Plonk.Props.C17", "Plonk.Props.C15Packed"]
+EXTRA_AUDITS = ["C15Packed"]
 PROFILE = "checked"          # debug assertions + overflow checks, as in the project's own test profile
 ASSUMPTIONS = ["hangs and real peak memory are observed on the implementation, not proved; the model decoders are total by "
                "construction (structural recursion)",
